@@ -47,6 +47,54 @@ def assertion(B, rules, skeleton, out, params):
     return parts
 
 
+def signature(B, rec, out, failing):
+    """identifies WHICH failure this is (for the known-findings list): returns a site only for the one recorded shape -
+    after expand_scc(), no attractor lacks a seed, and every attractor with more than one seed has its seeds at two nodes
+    N and M with M strictly inside N although M is not a descendant of N in the diagram.  Anything else: None (reported)."""
+    tr = out["trace"]
+    sk = [e["kind"] for e in tr]
+    if len(sk) < 2 or sk[-1] != "allseeds" or sk[-2] != "sccd":
+        return None
+    if not failing or not all("has exactly one seed" in f for f in failing):
+        return None
+    dump = tr[-1]["dump"]
+    nodes = specs.node_by_id(dump)
+    oe = specs.out_edges(dump)
+    seeds = [(int(k), tuple(s)) for k, v in tr[-1]["rec"]["ret"].items() for s in v]
+    if any(any(v is None for v in s) for _, s in seeds):
+        return None
+
+    def desc(n):
+        seen, stack = set(), [n]
+        while stack:
+            for e in oe[stack.pop()]:
+                if e["c"] not in seen:
+                    seen.add(e["c"])
+                    stack.append(e["c"])
+        return seen
+    shape_ok = False
+    for x in B.states:
+        if not B.attr(x):
+            continue
+        hits = [(nid, s) for nid, s in seeds if B.reach(x, s) and B.reach(s, x)]
+        if len(hits) == 0:
+            return None                      # a missing attractor is a different failure
+        if len(hits) == 1:
+            continue
+        for i, (n1, _) in enumerate(hits):
+            for (n2, _) in hits[i + 1:]:
+                a, b = nodes[n1]["space"], nodes[n2]["space"]
+                if n1 == n2:
+                    return None
+                if specs.refines(a, b) and a != b and n1 not in desc(n2):
+                    shape_ok = True
+                elif specs.refines(b, a) and a != b and n2 not in desc(n1):
+                    shape_ok = True
+                else:
+                    return None
+    return {"site": "expand_scc: attractor seeded at a node and again at a nested node that is not its descendant"} if shape_ok else None
+
+
 def info(out):
     return {"ops": [(e["kind"], e["rec"]["exc"]) for e in out["trace"]], "nodes": len(out["trace"][-1]["dump"]["nodes"])}
 
